@@ -227,7 +227,7 @@ var resetSiblingExempt = map[string]string{
 func init() {
 	core.Register(&core.Rule{
 		Name: "R-RESET",
-		Doc: "For every module struct type T, memo fields MF(T) are the slice/map fields that receive populating writes (append, map insert, element store of a non-constant, copy) anywhere in the module. A clearing method of T is a method (with callees on the same receiver folded in) that resets at least one memo field (truncate [:0], fresh make, delete/clear, constant fill) and performs no populating write. Every clearing method must reset every memo field of T: a memo that survives a clear is consulted by the next search with keys (state ids, offsets) that now mean something else. Necessary for C13 (history independence) and C14 (engines exact under every cache capacity). (b) Sibling agreement: a non-memo field that at least two clearing siblings of a type re-initialise as a whole (start-state table, next id) must be re-initialised as a whole by every clearing sibling. Exemptions are per (method, field) with a reason (statistics that deliberately accumulate, the clear counter, sparse-set arrays validated by cross-check).",
+		Doc: "For every module struct type T, memo fields MF(T) are the slice/map fields that receive populating writes (append, map insert, element store of a non-constant, copy) anywhere in the module. A clearing method of T is a method (with callees on the same receiver folded in) that resets at least one memo field (truncate [:0], fresh make, delete/clear, constant fill) and performs no populating write; an unexported method whose every caller in the module is such a clearing method of the same type calling it on its own receiver is a building block of those methods (folded into them), not a clearing method of its own. Every clearing method must reset every memo field of T: a memo that survives a clear is consulted by the next search with keys (state ids, offsets) that now mean something else. Necessary for C13 (history independence) and C14 (engines exact under every cache capacity). (b) Sibling agreement: a non-memo field that at least two clearing siblings of a type re-initialise as a whole (start-state table, next id; directly or through a same-receiver callee) must be re-initialised as a whole by every clearing sibling. Exemptions are per (method, field) with a reason (statistics that deliberately accumulate, the clear counter, sparse-set arrays validated by cross-check).",
 		Min: 18, NeedSSA: true,
 		Run: func(p *core.Prog) *core.RuleResult {
 			res := &core.RuleResult{}
@@ -310,6 +310,95 @@ func init() {
 				}
 				return reset, pop
 			}
+			// building blocks: an unexported method whose every caller in the module is a clearing method of the same type
+			// calling it on its own receiver is part of those methods (its writes are folded into them), not a clearing
+			// method of its own: deleteAllStates() + resetTables() behind Clear, ClearKeepMemory and Reset
+			type callerOf struct {
+				fn      *ssa.Function
+				ownRecv bool
+			}
+			callers := map[*ssa.Function][]callerOf{}
+			for _, fn := range p.SrcFuncs() {
+				if strings.HasSuffix(p.File(fn.Pos()), "_test.go") {
+					continue
+				}
+				for _, b := range fn.Blocks {
+					for _, in := range b.Instrs {
+						ci, ok := in.(ssa.CallInstruction)
+						if !ok {
+							continue
+						}
+						callee := ci.Common().StaticCallee()
+						if callee == nil || callee.Signature.Recv() == nil {
+							continue
+						}
+						own := fn.Signature.Recv() != nil && len(fn.Params) > 0 && len(ci.Common().Args) > 0 && ci.Common().Args[0] == ssa.Value(fn.Params[0])
+						callers[callee] = append(callers[callee], callerOf{fn, own})
+					}
+				}
+			}
+			isClearing := func(m *ssa.Function, n *types.Named) bool {
+				reset, pop := eff(m, n, map[*ssa.Function]bool{})
+				clears := false
+				for f := range infos[n].memo {
+					if pop[f] {
+						return false
+					}
+					if reset[f] {
+						clears = true
+					}
+				}
+				return clears
+			}
+			var isBlock func(m *ssa.Function, n *types.Named, seen map[*ssa.Function]bool) bool
+			isBlock = func(m *ssa.Function, n *types.Named, seen map[*ssa.Function]bool) bool {
+				if token.IsExported(m.Name()) || len(callers[m]) == 0 || seen[m] {
+					return false
+				}
+				seen[m] = true
+				for _, c := range callers[m] {
+					if !c.ownRecv || namedOfType(c.fn.Signature.Recv().Type()) != n {
+						return false
+					}
+					if !isClearing(c.fn, n) {
+						return false
+					}
+				}
+				return true
+			}
+			// whole-field re-initialisations of a method, same-receiver callees folded in
+			var wholeOf func(fn *ssa.Function, owner *types.Named, seen map[*ssa.Function]bool) map[*types.Var]bool
+			wholeOf = func(fn *ssa.Function, owner *types.Named, seen map[*ssa.Function]bool) map[*types.Var]bool {
+				whole := map[*types.Var]bool{}
+				if seen[fn] {
+					return whole
+				}
+				seen[fn] = true
+				for _, w := range writes[fn] {
+					if w.owner == owner && !w.populate && w.how != "element store" && w.how != "delete" && w.how != "clear" {
+						whole[w.field] = true
+					}
+				}
+				if len(fn.Params) == 0 {
+					return whole
+				}
+				for _, b := range fn.Blocks {
+					for _, in := range b.Instrs {
+						c, ok := in.(*ssa.Call)
+						if !ok {
+							continue
+						}
+						callee := c.Call.StaticCallee()
+						if callee == nil || callee.Signature.Recv() == nil || len(c.Call.Args) == 0 || c.Call.Args[0] != ssa.Value(fn.Params[0]) {
+							continue
+						}
+						for f := range wholeOf(callee, owner, seen) {
+							whole[f] = true
+						}
+					}
+				}
+				return whole
+			}
 			var names []*types.Named
 			for n := range infos {
 				names = append(names, n)
@@ -338,7 +427,7 @@ func init() {
 							popsMemo = true
 						}
 					}
-					if !clearsMemo || popsMemo {
+					if !clearsMemo || popsMemo || isBlock(m, n, map[*ssa.Function]bool{}) {
 						continue
 					}
 					nTypes++
@@ -393,15 +482,10 @@ func init() {
 							popsMemo = true
 						}
 					}
-					if !clearsMemo || popsMemo {
+					if !clearsMemo || popsMemo || isBlock(m, n, map[*ssa.Function]bool{}) {
 						continue
 					}
-					whole := map[*types.Var]bool{}
-					for _, w := range writes[m] {
-						if w.owner == n && !w.populate && w.how != "element store" && w.how != "delete" && w.how != "clear" {
-							whole[w.field] = true
-						}
-					}
+					whole := wholeOf(m, n, map[*ssa.Function]bool{})
 					cms = append(cms, cm{m, whole})
 				}
 				if len(cms) < 2 {
